@@ -8,6 +8,8 @@ HARNESSES = {
     'holders_seq': {'san': 'asan'},
     'unique_seq': {'san': 'asan'},
     'bits_seq': {'san': 'asan'},
+    'guard_seq': {'san': 'asan'},
+    'qs_seq': {'san': 'asan'},
     'parsers_fuzz': {'san': 'asan', 'cxxflags': ['-fno-sanitize=nonnull-attribute'], 'fuzz_raw': True},
     'printf_diff': {'san': 'asan', 'cxxflags': ['-fno-sanitize=nonnull-attribute']},
     'rbtree_seq': {'san': 'asan'},
@@ -341,6 +343,41 @@ PROPS['C20'] = {
     'level_note': 'trusts ASan/UBSan to expose out-of-bounds accesses and signed overflow; frg_panic is an allowed outcome; conversions outside the property (floats, %n) are rejected by the agent',
     'technique': 'fuzzing (exhaustive small alphabets, rapidcheck byte strings, libFuzzer with dictionary) of the four parsers under ASan+UBSan with exact-size buffers and argument lists',
     'assumptions': ['x86-64 SysV va_list layout', 'inputs up to 4 KiB'],
+}
+
+PROPS['C11'] = {
+    'runs': [{'harness': 'qs_seq',
+              'quick': {'rc': rc(8000, sizes=[40, 80, 160])},
+              'thorough': {'rc': rc(150000, sizes=[40, 80, 160, 300]), 'fuzz': {'seconds': 120}}}],
+    'rule': 'layer 1 (whole-operation granularity, instrumented mutex): 1-3 agents, histories of online / offline / quiescent_state / await_barrier(fresh node) / run / '
+            'quiescent_barrier (only when the caller is the only online agent), followed by a fair tail of 8 rounds in which every online agent reports a quiescent state and '
+            'every agent calls run(). Oracle per barrier: S = agents online at registration; the callback may only run inside run() of the registering agent, at most once, and '
+            'only when every member of S has been inside quiescent_state() or offline since the registration; the callback frees its node (ASan sees any later touch by the '
+            'library); every operation leaves the domain mutex free and never locks it twice; after the fair tail every registered callback has run. Non-trivial: a barrier '
+            'was registered while another was pending, or an agent joined or left while a barrier was pending; distinct = hash of the decoded history.',
+    'required_tags': ['join-while-barrier-pending', 'leave-while-barrier-pending', 'two-barriers-pending', 'quiescent_barrier', 'tail-rounds-2', 'has-barrier'],
+    'min_cases': {'quick': 30000, 'thorough': 500000},
+    'level_text': 'generated agent histories against a grace-period oracle and a bounded fair-tail liveness horizon; sequentially consistent schedules only; held on everything generated',
+    'level_note': 'liveness is "within 8 fair rounds"; histories in which offline() hits the documented TODO assertion (agent with a deferred grace period) are discarded and counted; at least one agent is online during the tail',
+    'technique': 'stateful property testing with a history oracle (grace-period set per barrier) and bounded-liveness tail; scheduled interleavings with TSan for the memory-order clause',
+    'assumptions': ['API preconditions stated by the FRG_ASSERTs', 'sequentially consistent interleavings; weak-memory outcomes only through TSan happens-before race detection'],
+}
+PROPS['C12'] = {
+    'runs': [{'harness': 'guard_seq',
+              'quick': {'enum': True, 'rc': rc(8000, sizes=[40, 80, 160])},
+              'thorough': {'enum': True, 'rc': rc(150000, sizes=[40, 80, 160, 300]), 'fuzz': {'seconds': 90}}}],
+    'rule': 'guards: three slots of unique_lock / shared_lock over two instrumented mutexes; histories of construct locked / dont_lock / adopt_lock / default, lock, unlock, '
+            'move-construct, move-assign (incl. self), swap, destroy, guard() helpers; the QS lock_guard: construct, unlock, lock, destroy; enumeration of destination state x '
+            'source state x {move-construct, move-assign, swap} x same/other mutex. Oracle after every operation: the mutex\'s exclusive/shared hold count equals the number of '
+            'guards that say they own it, is_locked()/protects() equal the model, every release goes through the matching call, no lock of a held mutex and no unlock of a free '
+            'one; at the end both mutexes are free and #acquire == #release. Non-trivial: an ownership transfer (move/swap/assign) involving an owning guard; distinct = hash '
+            'of the decoded history.',
+    'required_tags': ['unique_lock', 'shared_lock', 'qs-lock_guard', 'self-move-assign'],
+    'min_cases': {'quick': 30000, 'thorough': 500000},
+    'level_text': 'exhaustive state-pair enumeration plus generated guard histories against an ownership model with an instrumented mutex; spinlocks under a harness-owned scheduler with TSan; held on everything generated',
+    'level_note': 'the instrumented mutex models a correct non-recursive mutex as seen by one thread',
+    'technique': 'stateful property testing of lock guards against an ownership model; schedule-controlled interleavings of the spinlocks under TSan',
+    'assumptions': ['lock() is only issued when a correct mutex would not block'],
 }
 
 NOT_APPLICABLE = {}
